@@ -104,6 +104,10 @@ func pairList(ps []Pair) string {
 
 func (c Case) source() string {
 	switch c.Via {
+	case "computed":
+		return "computed name over " + litObj(c.Ops[0].Pairs, nil) + " in " + litObj(c.Pairs, nil)
+	case "interleave":
+		return "iterate " + litObj(c.Pairs, nil) + " while using " + litObj(c.Ops[0].Pairs, nil)
 	case "digest":
 		return litMap(c.Pairs, nil) + ".digest(" + pairList(c.Ops[0].Pairs) + ")"
 	case "listchain":
@@ -195,7 +199,99 @@ func objName(k Key) string {
 	return s
 }
 
+// describeObj: every accessor of the object in variable v.
+func describeObj(v string) string {
+	return strings.ReplaceAll("[V.keys, V.keys(private?: true), V.values(private?: true), V.items(private?: true), V.values, V.repr, V@{|k, x| [k, x]}]", "V", v)
+}
+
+// judgeComputed: one object literal whose first name is computed ("#{k}": ...) is evaluated once per element of a list
+// of names (one literal node, many evaluations); each result must describe itself exactly like the literal with that
+// name written out, evaluated on its own.
+func judgeComputed(c *Case) (sig, detail string) {
+	in := interp.Shared()
+	names := []string{}
+	for _, p := range c.Ops[0].Pairs {
+		names = append(names, objName(p.K))
+	}
+	static := []string{}
+	for _, p := range c.Pairs {
+		static = append(static, fmt.Sprintf("%s: %d", p.K.Src, p.V))
+	}
+	rest := ""
+	if len(static) > 0 {
+		rest = ", " + strings.Join(static, ", ")
+	}
+	quoted := []string{}
+	for _, n := range names {
+		quoted = append(quoted, fmt.Sprintf("%q", n))
+	}
+	keyExpr := []string{"\"#{k}\"", "(k + \"\")", "k.S"}[len(names)%3]
+	prog := "[" + strings.Join(quoted, ", ") + "]@{|k| o := {" + keyExpr + ": 1" + rest + "}; " + describeObj("o") + "}"
+	o := in.Run(prog, interp.Opts{})
+	if o.Kind != interp.Value {
+		if o.Kind == interp.HostPanic {
+			return "obj:host-panic", prog + " gave " + o.Show()
+		}
+		return "", "" // the key expression form is not accepted in this position: nothing to judge
+	}
+	arr, ok := o.Obj.(*object.PanArr)
+	if !ok || len(arr.Elems) != len(names) {
+		return "obj:computed-name:results", prog + " gave " + o.Show()
+	}
+	for i, n := range names {
+		alone := in.Run(fmt.Sprintf("o := {%q: 1%s}; %s", n, rest, describeObj("o")), interp.Opts{})
+		if alone.Kind != interp.Value {
+			return "", ""
+		}
+		got, want := interp.SafeInspect(arr.Elems[i]), interp.SafeInspect(alone.Obj)
+		if got != want {
+			c.Got, c.Want = got, want
+			return "obj:computed-name-evaluated-repeatedly", fmt.Sprintf("%s\nelement %d (name %q) describes itself as %s; the same literal with the name written out gives %s", prog, i, n, got, want)
+		}
+	}
+	return "", ""
+}
+
+// judgeInterleaved: iterating one object while the body (or the next statement) uses accessors and iterations of other
+// objects must visit exactly the object's items.
+func judgeInterleaved(c *Case) (sig, detail string) {
+	in := interp.Shared()
+	env := object.NewEnclosedEnv(in.Global)
+	if o := in.Run("o := "+litObj(c.Pairs, nil)+"; p := "+litObj(c.Ops[0].Pairs, nil)+"; q := {a: 0, c: 0, _z: 1}", interp.Opts{Env: env}); o.Kind != interp.Value {
+		return "", ""
+	}
+	ins := func(src string) string {
+		o := in.Run(src, interp.Opts{Env: env})
+		if o.Kind == interp.Value {
+			return interp.SafeInspect(o.Obj)
+		}
+		return o.Show()
+	}
+	want := ins("o.items")
+	for _, q := range []string{
+		"o@{|k, v| p.keys; q.values; [k, v]}", "o@{|k, v| x := p.items(private?: true); [k, v]}", "o@{|k, v| p@{|k2, v2| k2}; [k, v]}", "(o@{|k, v| p@{|k2, v2| [k, v]}})@{|a| a[0]}.A if p.keys.len > 0 else o.items",
+		"{|it| <{|n| yield {|e| p.keys; q.items; e}(it.next) if n > 0; recur(n - 1)}>.new(o.keys.len)}(o._iter)=@{\\}", "o@{|k, v| {**p}.keys; %{**q}.keys; [k, v]}", "o.zip(p)@{|a| a[0]}[:o.keys.len] if p.keys.len >= o.keys.len else o.items",
+		"o.map {|k, v| p.map {|k2, v2| v2}; [k, v]}",
+	} {
+		if got := ins(q); got != want {
+			c.Got, c.Want = got, want
+			return "obj:iteration-disturbed-by-other-objects", fmt.Sprintf("o := %s; p := %s; q := {a: 0, c: 0, _z: 1}; %s gave %s, o.items is %s", litObj(c.Pairs, nil), litObj(c.Ops[0].Pairs, nil), q, got, want)
+		}
+	}
+	return "", ""
+}
+
 func judge(c *Case) (sig, detail string) {
+	return interp.Guard(func() (string, string) { return judgeRaw(c) }, func() { vt.Discard("an evaluation of this case ran out of its budget (inconclusive)") })
+}
+
+func judgeRaw(c *Case) (sig, detail string) {
+	switch c.Via {
+	case "computed":
+		return judgeComputed(c)
+	case "interleave":
+		return judgeInterleaved(c)
+	}
 	in := interp.Shared()
 	w := &world{in: in, env: object.NewEnclosedEnv(in.Global), eq: map[string]bool{}}
 	src := c.source()
@@ -526,6 +622,16 @@ func genCase(t *rapid.T) Case {
 	c := Case{Kind: rapid.SampledFrom([]string{"map", "map", "obj"}).Draw(t, "kind")}
 	nops := rapid.SampledFrom([]int{0, 0, 1, 1, 2, 3}).Draw(t, "nops")
 	c.Vars = nops > 0 && rapid.Bool().Draw(t, "operands in variables")
+	if c.Kind == "obj" && rapid.IntRange(0, 5).Draw(t, "obj variant") == 0 {
+		// object literals whose first name is computed and evaluated repeatedly, or objects iterated while others are used
+		c.Via = rapid.SampledFrom([]string{"computed", "interleave"}).Draw(t, "variant")
+		c.Pairs = genPairs(t, objKeys, 5, 100, "own")
+		c.Ops = []Operand{{IsObj: true, Pairs: genPairs(t, objKeys, 5, 200, "names")}}
+		if len(c.Ops[0].Pairs) == 0 {
+			c.Ops[0].Pairs = []Pair{{K: objKeys[0], V: 200}}
+		}
+		return c
+	}
 	if c.Kind == "obj" {
 		c.Pairs = genPairs(t, objKeys, 10, 100, "own")
 		for i := 0; i < nops; i++ {
